@@ -43,6 +43,27 @@ except Exception:
     pass
 CLAIMED.update(EXTRA)
 
+# coverage added in round 5 (appended to the level note of the row)
+ROUND5 = {
+ "C01": " Also: box headers with 64-bit sizes across the end of the reader's buffer (inside meta / moov / the Canon box and at top level), the exported signature helpers on every prefix of the TIFF signatures.",
+ "C02": " Also: processor time of the isolated worker (getrusage) <= 0.3 s + 2 us/byte, smallest of three measurements (work that asks nothing of the reader); iloc boxes declaring 65535 extents; '&' runs through caller buffers up to 256 KiB; one case in five through a reader that fails for good with a non-EOF error.",
+ "C03": " Exposure bias over the whole 8+8-bit range; CameraModel asserted for either order of the Make / Model values; date tags spelled \"unknown\".",
+ "C07": " Also text tags and LensSpecification written with a numeric type (not text / not rationals: the field stays empty in both byte orders).",
+ "C09": " The must-match rows for mif1+avif / msf1+hevc accept the brand in either compatible slot (they had copied the library's slot).",
+ "C10": " Also APP1 segments with the Exif identifier and 0..7 bytes behind it (no Exif block: no callback, the next segment untouched).",
+ "C11": " Also callbacks that ask for a negative skip; after an error return the reader must stand at the next top-level box; uuid boxes shorter than their identifier, the Canon box at top level, preview boxes with a foreign first child.",
+ "C12": " Caller bufio.Readers of 16 and 24 bytes; exif2.Parse on an io.ReadSeeker that stands behind another TIFF block.",
+ "C13": " Extended switch more-forms: literal '>' in values (also leading), identifiers with several ':', bias in tenths / hundredths (compared as fractions in lowest terms), white space after the digits of numeric element values.",
+ "C14": " Also lists of 300,000 items of 4..17 bytes, values made of separator characters, containers left with 8..19 bytes, uuid boxes that carry a known identifier and nothing else; the result digest is computed outside the measured region.",
+ "C15": " gen.WrapLying also produces lying iref boxes, a lying first child inside the wrapper and wrappers that hold none of the parent's children.",
+ "C16": " Every decoder must read what its encoder writes for every value (errors had been tolerated for undocumented enum values).",
+ "C20": " The average hash of every generated image equals that of the same pixels packed at the origin.",
+}
+for _p, _t in ROUND5.items():
+    if _p in CLAIMED:
+        c = CLAIMED[_p]
+        CLAIMED[_p] = (c[0], c[1], c[2], c[3] + _t)
+
 ALL = ["C%02d" % i for i in range(1, 21)]
 NA_REASON = {}
 try:
